@@ -4,13 +4,20 @@
    Only statements, `exact`, Print Assumptions and non-vacuity Examples.
 
    Model: Model/PathIdx.v.  [comp] = which builtin sum() the interpreter has
-   (true: CPython >= 3.12, Neumaier-compensated on exact floats), [fb] = false:
-   the code as it is / true: with the fall-back repair.  The theorems over R
-   hold for all four combinations; tags of the lengths (float / numpy scalar)
-   are irrelevant over R. *)
+   (true: CPython >= 3.12, Neumaier-compensated on exact floats).  Two flags
+   select the variant of the code: [fb] = true: T2t / point fall back to the end
+   of the last nonzero-length segment when the float sum of the fractions ends
+   below T (false: the unrepaired code raises BugException / RuntimeError);
+   [cl] = true: T2t clamps its quotient to 1 (false: the unrepaired raw
+   quotient).  The theorems over R hold for all combinations; tags of the
+   lengths (float / numpy scalar) are irrelevant over R.  The harness determines
+   the flags from the implementation; for the repaired code (cl = fb = true) the
+   binary64 theorems C05_T2t_total_float and C05_T2t_le_1_float hold for ALL
+   inputs; the *_refuted Examples are the historical witnesses against the
+   unrepaired variants (flags false). *)
 From Coq Require Import ZArith List Bool Reals Lra PrimFloat.
 From SVP Require Import Base.Num Base.FloatK Model.PathIdx
-     Proofs.PathIdxR Proofs.PathIdxGen Proofs.PathIdxList Proofs.PathIdxFloat.
+     Proofs.PathIdxR Proofs.PathIdxGen Proofs.PathIdxList Proofs.PathIdxFloatLaws Proofs.PathIdxFloat.
 Import ListNotations.
 Open Scope R_scope.
 
@@ -18,29 +25,29 @@ Open Scope R_scope.
 (* all lengths >= 0, total > 0, 0 < T < 1: T2t returns (k,t) with k a valid
    index, segment k of positive length (zero-length segments are never
    selected, no division by zero), 0 < t <= 1, T inside (cum_k, cum_(k+1)] *)
-Theorem C05_T2t_spec : forall comp (tl : list (bool * R)),
+Theorem C05_T2t_spec : forall comp cl (tl : list (bool * R)),
   nonneg (vals tl) -> 0 < total NumR comp tl -> forall fb T, 0 < T < 1 ->
-  exists k t, T2t NumR comp fb tl T = Ok (Z.of_nat k, t) /\ (k < length tl)%nat
+  exists k t, T2t NumR comp cl fb tl T = Ok (Z.of_nat k, t) /\ (k < length tl)%nat
     /\ 0 < nth k (vals tl) 0 /\ 0 < t <= 1
     /\ cum NumR comp (fractions NumR comp tl) k < T <= cum NumR comp (fractions NumR comp tl) (S k)
     /\ t = (T - cum NumR comp (fractions NumR comp tl) k) / nth k (vals (fractions NumR comp tl)) 0.
 Proof. exact T2t_spec. Qed.
 
-Theorem C05_t2T_T2t : forall comp (tl : list (bool * R)),
+Theorem C05_t2T_T2t : forall comp cl (tl : list (bool * R)),
   nonneg (vals tl) -> 0 < total NumR comp tl ->
-  forall fb T k t, 0 < T < 1 -> T2t NumR comp fb tl T = Ok (Z.of_nat k, t) ->
+  forall fb T k t, 0 < T < 1 -> T2t NumR comp cl fb tl T = Ok (Z.of_nat k, t) ->
   t2T NumR comp tl k t = Ok T.
 Proof. exact t2T_T2t. Qed.
 
 (* T2t inverts t2T on (0,1] of a positive-length segment; when t2T gives 1 the
    answer is (len-1, 1): all later segments then have length zero *)
-Theorem C05_T2t_t2T : forall comp (tl : list (bool * R)),
+Theorem C05_T2t_t2T : forall comp cl (tl : list (bool * R)),
   nonneg (vals tl) -> 0 < total NumR comp tl ->
   forall fb k t, (k < length tl)%nat -> 0 < nth k (vals tl) 0 -> 0 < t <= 1 ->
   exists T, t2T NumR comp tl k t = Ok T /\ 0 < T <= 1
-    /\ (T < 1 -> T2t NumR comp fb tl T = Ok (Z.of_nat k, t))
+    /\ (T < 1 -> T2t NumR comp cl fb tl T = Ok (Z.of_nat k, t))
     /\ (T = 1 -> t = 1 /\ cum NumR comp (fractions NumR comp tl) (S k) = 1
-                 /\ T2t NumR comp fb tl T = Ok (last_idx (length tl), 1)).
+                 /\ T2t NumR comp cl fb tl T = Ok (last_idx (length tl), 1)).
 Proof. exact T2t_t2T. Qed.
 
 (* segment k occupies exactly [cum_k, cum_(k+1)], the cumulative arc-length
@@ -61,29 +68,37 @@ Theorem C05_sum_is_sum : forall comp (tl : list (bool * R)),
   pysum NumR comp tl = fold_right Rplus 0 (map snd tl).
 Proof. exact pysum_R. Qed.
 
-(* point(T) searches the same (k,t) as T2t(T), for every T and every list of
-   lengths (whenever T2t returns) *)
-Theorem C05_point_coherent : forall comp (tl : list (bool * R)) fb T kt,
-  tl <> [] -> T2t NumR comp fb tl T = Ok kt ->
+(* point(T) searches the same (k,t) as T2t(T), for every T >= 0 and every list
+   of non-negative lengths, total 0 included (whenever T2t returns) *)
+Theorem C05_point_coherent : forall comp cl (tl : list (bool * R)) fb T kt,
+  tl <> [] -> nonneg (vals tl) -> 0 <= T -> T2t NumR comp cl fb tl T = Ok kt ->
   point_search NumR comp fb tl T = Ok kt.
 Proof. exact point_search_T2t. Qed.
 
-Theorem C05_T2t_ends : forall comp (tl : list (bool * R)) fb,
-  T2t NumR comp fb tl 0 = Ok (0%Z, 0)
-  /\ T2t NumR comp fb tl 1 = Ok (last_idx (length tl), 1).
+Theorem C05_T2t_ends : forall comp cl (tl : list (bool * R)) fb,
+  T2t NumR comp cl fb tl 0 = Ok (0%Z, 0)
+  /\ T2t NumR comp cl fb tl 1 = Ok (last_idx (length tl), 1).
 Proof. exact T2t_ends. Qed.
 
+(* the repaired code over R: total on [0,1] for ANY non-negative lengths *)
+Theorem C05_T2t_total_R : forall comp cl (tl : list (bool * R)) T,
+  nonneg (vals tl) -> 0 <= T <= 1 -> exists kt, T2t NumR comp cl true tl T = Ok kt.
+Proof. exact T2t_total_R. Qed.
+Theorem C05_point_total_R : forall comp (tl : list (bool * R)) T,
+  tl <> [] -> nonneg (vals tl) -> 0 <= T <= 1 -> exists kt, point_search NumR comp true tl T = Ok kt.
+Proof. exact point_search_total_R. Qed.
+
 (* Path.point(T) = segment k evaluated at t, (k,t) = T2t(T) *)
-Theorem C05_point_is_segment_point : forall comp (tl : list (bool * R)),
+Theorem C05_point_is_segment_point : forall comp cl (tl : list (bool * R)),
   nonneg (vals tl) -> 0 < total NumR comp tl ->
   forall (S P : Type) (spoint : S -> R -> P) (segs : list S) fb T,
   length segs = length tl -> 0 < T < 1 ->
-  exists k t s, T2t NumR comp fb tl T = Ok (Z.of_nat k, t) /\ nth_error segs k = Some s
+  exists k t s, T2t NumR comp cl fb tl T = Ok (Z.of_nat k, t) /\ nth_error segs k = Some s
     /\ path_point NumR spoint comp fb segs tl T = Ok (spoint s t).
 Proof. exact path_point_coherent. Qed.
 
 (* point(0) / point(1) are the first segment at 0 / the last segment at 1 *)
-Theorem C05_point_ends : forall comp (tl : list (bool * R)),
+Theorem C05_point_ends : forall comp (cl : bool) (tl : list (bool * R)),
   nonneg (vals tl) -> 0 < total NumR comp tl ->
   forall (S P : Type) (spoint : S -> R -> P) (s0 : S) (segs : list S) fb,
   length (s0 :: segs) = length tl ->
@@ -95,34 +110,87 @@ Proof. exact path_point_ends. Qed.
 Section AnyCarrier.
   Context {K : Type} (N : Num K).
 
-  Theorem C05_T2t_index : forall fb (fs : list (bool * K)) T k t,
-    fs <> [] -> T2t_fr N fb fs T = Ok (k, t) -> (0 <= k < Z.of_nat (length fs))%Z.
+  Theorem C05_T2t_index : forall cl fb (fs : list (bool * K)) T k t,
+    fs <> [] -> T2t_fr N cl fb fs T = Ok (k, t) -> (0 <= k < Z.of_nat (length fs))%Z.
   Proof. exact (T2t_fr_index N). Qed.
   Theorem C05_point_index : forall fb (fs : list (bool * K)) T k t,
     point_fr N fb fs T = Ok (k, t) -> (0 <= k < Z.of_nat (length fs))%Z.
   Proof. exact (point_fr_index N). Qed.
 
-  (* the repair: total on [0,1], and identical to the current code wherever
-     that does not fall through *)
-  Theorem C05_T2t_fixed_total : forall (fs : list (bool * K)) T, in01 N T = true ->
-    (exists kt, T2t_fixed N fs T = Ok kt) \/ T2t_fixed N fs T = Err EZeroDiv.
-  Proof. exact (T2t_fixed_total N). Qed.
-  Theorem C05_T2t_fixed_no_bug : forall (fs : list (bool * K)) T, T2t_fixed N fs T <> Err EBug.
-  Proof. exact (T2t_fixed_no_bug N). Qed.
-  Theorem C05_T2t_fixed_agrees : forall (fs : list (bool * K)) T,
-    T2t_fr N false fs T <> Err EBug -> T2t_fixed N fs T = T2t_fr N false fs T.
-  Proof. exact (T2t_fixed_agrees N). Qed.
+  (* the fall-back repair: no BugException, identical to the unrepaired code
+     wherever that does not fall through, and where it did fall through the
+     answer is the end of the last segment of nonzero length *)
+  Theorem C05_T2t_fixed_no_bug : forall cl (fs : list (bool * K)) T, T2t_fr N cl true fs T <> Err EBug.
+  Proof. exact (T2t_fb_no_bug N). Qed.
+  Theorem C05_T2t_fixed_total : forall cl (fs : list (bool * K)) T, in01 N T = true ->
+    (exists kt, T2t_fr N cl true fs T = Ok kt) \/ T2t_fr N cl true fs T = Err EZeroDiv.
+  Proof. exact (T2t_fb_total N). Qed.
+  Theorem C05_T2t_fixed_agrees : forall cl (fs : list (bool * K)) T,
+    T2t_fr N cl false fs T <> Err EBug -> T2t_fr N cl true fs T = T2t_fr N cl false fs T.
+  Proof. exact (T2t_fb_agrees N). Qed.
+  Theorem C05_T2t_fixed_value : forall cl (fs : list (bool * K)) T,
+    T2t_fr N cl false fs T = Err EBug -> T2t_fr N cl true fs T = Ok (fallback_idx N fs, one N).
+  Proof. exact (T2t_fb_value N). Qed.
+  Theorem C05_fallback_nonzero_length : forall (fs : list (bool * K)),
+    (exists j x, nth_error fs j = Some x /\ ltb N (zero N) (snd x) = true) ->
+    exists j x, fallback_idx N fs = Z.of_nat j /\ nth_error fs j = Some x
+                /\ ltb N (zero N) (snd x) = true.
+  Proof. exact (fallback_idx_positive N). Qed.
   Theorem C05_point_fixed_total : forall (fs : list (bool * K)) T, fs <> [] -> in01 N T = true ->
     (exists kt, point_fr N true fs T = Ok kt) \/ point_fr N true fs T = Err EZeroDiv.
-  Proof. exact (point_fixed_total N). Qed.
+  Proof. exact (point_fb_total N). Qed.
   Theorem C05_point_fixed_agrees : forall (fs : list (bool * K)) T,
     point_fr N false fs T <> Err ERuntime -> point_fr N true fs T = point_fr N false fs T.
-  Proof. exact (point_fixed_agrees N). Qed.
+  Proof. exact (point_fb_agrees N). Qed.
+
+  (* the clamp repair: structurally never above 1 (only 1 < 1 = false and
+     1 < 0 = false are needed of the carrier), and it changes nothing where the
+     raw quotient was not above 1 *)
+  Theorem C05_T2t_clamped_le_1 :
+    ltb N (one N) (one N) = false -> ltb N (one N) (zero N) = false ->
+    forall fb (fs : list (bool * K)) T k t,
+    T2t_fr N true fb fs T = Ok (k, t) -> ltb N (one N) t = false.
+  Proof. exact (T2t_clamped_le_1 N). Qed.
+  Theorem C05_T2t_clamp_agrees : forall fb (fs : list (bool * K)) T k t,
+    T2t_fr N false fb fs T = Ok (k, t) -> ltb N (one N) t = false ->
+    T2t_fr N true fb fs T = Ok (k, t).
+  Proof. exact (T2t_clamp_agrees N). Qed.
+
+  (* full totality of the repaired T2t for any carrier satisfying the two
+     comparison laws (IEEE binary64 does: Proofs/PathIdxFloatLaws.v) *)
+  Theorem C05_T2t_repaired_total :
+    (forall T x l, eqb N l (zero N) = true -> leb N T (add N x l) = leb N T x) ->
+    (forall T, leb N (zero N) T = true -> eqb N T (zero N) = false -> leb N T (zero N) = false) ->
+    forall cl (fs : list (bool * K)) T, in01 N T = true -> exists kt, T2t_fr N cl true fs T = Ok kt.
+  Proof. exact (T2t_repaired_total N). Qed.
 End AnyCarrier.
 
-(* ---------- binary64: the current code falls off just below 1 ---------- *)
-Example C05_falloff_refuted : forall comp,
-  T2t NumF comp false falloff_tl falloff_T = Err EBug
+(* ---------- binary64, the repaired code (cl = fb = true): ALL inputs ---------- *)
+(* T2t is total on [0,1]: neither BugException nor ZeroDivisionError *)
+Theorem C05_T2t_total_float : forall cl (fs : list (bool * float)) T, in01 NumF T = true ->
+  exists kt, T2t_fr NumF cl true fs T = Ok kt.
+Proof. exact T2t_repaired_total_float. Qed.
+(* the returned segment parameter is never above 1 *)
+Theorem C05_T2t_le_1_float : forall fb (fs : list (bool * float)) T k t,
+  T2t_fr NumF true fb fs T = Ok (k, t) -> PrimFloat.ltb 1%float t = false.
+Proof. exact T2t_clamped_le_1_float. Qed.
+(* on the former counter-examples *)
+Example C05_falloff_fixed : forall comp cl,
+  T2t NumF comp cl true falloff_tl falloff_T = Ok (3%Z, 1%float)
+  /\ point_search NumF comp true falloff_tl falloff_T = Ok (3%Z, 1%float).
+Proof. exact falloff_fixed. Qed.
+Example C05_falloff_fixed_trailing_zeros : forall comp cl,
+  T2t NumF comp cl true (falloff_tl ++ [(true, 0%float); (false, 0%float)]) falloff_T
+  = Ok (3%Z, 1%float).
+Proof. exact falloff_fixed_trailing_zeros. Qed.
+Example C05_above1_fixed : forall comp fb,
+  T2t NumF comp true fb above1_tl above1_T = Ok (1%Z, 1%float).
+Proof. exact above1_fixed. Qed.
+
+(* ---------- binary64, historical witnesses against the UNREPAIRED code ---------- *)
+(* fb = false: falls off just below 1 *)
+Example C05_falloff_refuted : forall comp cl,
+  T2t NumF comp cl false falloff_tl falloff_T = Err EBug
   /\ point_search NumF comp false falloff_tl falloff_T = Err ERuntime
   /\ cum NumF false (fractions NumF comp falloff_tl) 4 = 0x1.ffffffffffffep-1%float.
 Proof. exact falloff_witness. Qed.
@@ -132,18 +200,22 @@ Example C05_falloff_in_domain : forall comp,
   /\ in01 NumF falloff_T = true /\ total NumF comp falloff_tl = 0x1.bp+4%float.
 Proof. exact falloff_domain. Qed.
 Theorem C05_T2t_total_float_refuted :
-  ~ (forall comp tl T,
+  ~ (forall comp cl tl T,
         forallb (fun bx => ltb NumF (zero NumF) (snd bx)) tl = true ->
         ltb NumF (zero NumF) T = true -> ltb NumF T (one NumF) = true ->
-        exists kt, T2t NumF comp false tl T = Ok kt).
+        exists kt, T2t NumF comp cl false tl T = Ok kt).
 Proof. exact T2t_total_float_refuted. Qed.
-Example C05_falloff_fixed : forall comp,
-  T2t NumF comp true falloff_tl falloff_T = Ok (3%Z, 1%float)
-  /\ point_search NumF comp true falloff_tl falloff_T = Ok (3%Z, 1%float).
-Proof. exact falloff_fixed. Qed.
-Theorem C05_T2t_total_float : forall (fs : list (bool * float)) T, in01 NumF T = true ->
-  (exists kt, T2t_fixed NumF fs T = Ok kt) \/ T2t_fixed NumF fs T = Err EZeroDiv.
-Proof. exact T2t_fixed_total_float. Qed.
+(* cl = false: t above 1 at a rounded cumulative boundary (lengths 1, 2, 2) *)
+Example C05_t_above_1_refuted : forall comp fb,
+  T2t NumF comp false fb above1_tl above1_T = Ok (1%Z, 0x1.0000000000001p+0%float)
+  /\ ltb NumF (one NumF) 0x1.0000000000001p+0%float = true
+  /\ in01 NumF above1_T = true
+  /\ point_search NumF comp fb above1_tl above1_T = Ok (1%Z, 1%float).
+Proof. exact above1_witness. Qed.
+Theorem C05_T2t_le_1_float_refuted :
+  ~ (forall comp fb tl T k t, in01 NumF T = true ->
+        T2t NumF comp false fb tl T = Ok (k, t) -> ltb NumF (one NumF) t = false).
+Proof. exact T2t_le_1_float_refuted. Qed.
 
 (* ---------- continuity predicates: any segment type, any == ---------- *)
 Section Lists.
@@ -209,20 +281,32 @@ Print Assumptions C05_interval.
 Print Assumptions C05_sum_is_sum.
 Print Assumptions C05_point_coherent.
 Print Assumptions C05_T2t_ends.
+Print Assumptions C05_T2t_total_R.
+Print Assumptions C05_point_total_R.
 Print Assumptions C05_point_is_segment_point.
 Print Assumptions C05_point_ends.
 Print Assumptions C05_T2t_index.
 Print Assumptions C05_point_index.
-Print Assumptions C05_T2t_fixed_total.
 Print Assumptions C05_T2t_fixed_no_bug.
+Print Assumptions C05_T2t_fixed_total.
 Print Assumptions C05_T2t_fixed_agrees.
+Print Assumptions C05_T2t_fixed_value.
+Print Assumptions C05_fallback_nonzero_length.
 Print Assumptions C05_point_fixed_total.
 Print Assumptions C05_point_fixed_agrees.
+Print Assumptions C05_T2t_clamped_le_1.
+Print Assumptions C05_T2t_clamp_agrees.
+Print Assumptions C05_T2t_repaired_total.
+Print Assumptions C05_T2t_total_float.
+Print Assumptions C05_T2t_le_1_float.
+Print Assumptions C05_falloff_fixed.
+Print Assumptions C05_falloff_fixed_trailing_zeros.
+Print Assumptions C05_above1_fixed.
 Print Assumptions C05_falloff_refuted.
 Print Assumptions C05_falloff_in_domain.
 Print Assumptions C05_T2t_total_float_refuted.
-Print Assumptions C05_falloff_fixed.
-Print Assumptions C05_T2t_total_float.
+Print Assumptions C05_t_above_1_refuted.
+Print Assumptions C05_T2t_le_1_float_refuted.
 Print Assumptions C05_iscontinuous_pairs.
 Print Assumptions C05_subpaths_rec.
 Print Assumptions C05_subpaths_concat.
